@@ -136,6 +136,9 @@ func (c Commands) MarshalBinary() ([]byte, error) {
 func (c *Commands) UnmarshalBinary(uplink bool, data []byte) error {
 	var i int
 
+	// reset the commands (in case c has been used before)
+	*c = nil
+
 	for i < len(data) {
 		var cmd Command
 		if err := cmd.UnmarshalBinary(uplink, data[i:]); err != nil {
@@ -216,6 +219,7 @@ func (p *AppTimeReqPayload) UnmarshalBinary(data []byte) error {
 
 	p.DeviceTime = binary.LittleEndian.Uint32(data[0:4])
 	p.Param.TokenReq = uint8(data[4] & 0x0f)
+	p.Param.AnsRequired = false
 	if data[4]&(1<<4) != 0 {
 		p.Param.AnsRequired = true
 	}
@@ -326,6 +330,7 @@ func (p *DeviceAppTimePeriodicityAnsPayload) UnmarshalBinary(data []byte) error 
 	if len(data) < p.Size() {
 		return fmt.Errorf("lorawan/applayer/clocksync: %d bytes are expected", p.Size())
 	}
+	p.Status.NotSupported = false
 	if data[0]&1 != 0 {
 		p.Status.NotSupported = true
 	}
